@@ -39,6 +39,7 @@ pub fn spec() -> Spec {
       "the hostile peer never uses the GUID of a well-behaved peer (a peer that can forge another's identity can legitimately replace its samples; that is DDS Security's subject)",
       "cost bounds per call into the node: 0.3 s CPU (debug build, opt-level 1) and 4 MiB + 64 x datagram bytes requested from the allocator; ordinary 64 KiB traffic stays two orders of magnitude below both",
       "built with overflow checks and debug assertions: an arithmetic overflow on a wire value is a panic",
+      "one run in 40 is the discovery variant on engine E2 (props/c06d.rs): hostile PL_CDR payloads on the built-in topics against a whole participant; there, cost is bounded only by the hang watchdog and the 2 GiB allocation refusal",
     ],
   }
 }
@@ -563,6 +564,11 @@ impl Collected {
 }
 
 pub fn run(_tier: &str, ctx: &mut Ctx) -> Check {
+  // one run in 40 attacks the discovery of a whole participant instead (engine E2)
+  if ctx.ch.chance(1, 40) {
+    ctx.count("op.discovery_variant");
+    return super::c06d::run(ctx);
+  }
   let mut node = SimNode::new(1, prefix_for(1), 0);
   let rq = qos(true, true, 0, false, 0);
   let bq = qos(false, true, 0, false, 0);
